@@ -448,9 +448,21 @@ pub(crate) fn run(
     let mut backtrack_count = 0;
     let mut pc = 0;
     let mut ix = pos;
+    #[cfg(fancy_regex_verif)]
+    verif::reset_stats();
     loop {
         // break from this loop to fail, causes stack to pop
         'fail: loop {
+            #[cfg(fancy_regex_verif)]
+            {
+                verif::on_insn(state.stack.len());
+                verif::emit(|| verif::Event::Step {
+                    pc,
+                    ix,
+                    depth: state.stack.len(),
+                    saves: state.saves.clone(),
+                });
+            }
             #[cfg(feature = "std")]
             if option_flags & OPTION_TRACE != 0 {
                 println!("{}\t{} {:?}", ix, pc, prog.body[pc]);
@@ -465,6 +477,8 @@ pub(crate) fn run(
                     if option_flags & OPTION_TRACE != 0 {
                         println!("saves: {:?}", state.saves);
                     }
+                    #[cfg(fancy_regex_verif)]
+                    verif::emit(|| verif::Event::End(0));
                     if let Some(&slot1) = state.saves.get(1) {
                         // With some features like keep out (\K), the match start can be after
                         // the match end. Cap the start to <= end.
@@ -716,18 +730,181 @@ pub(crate) fn run(
             println!("fail");
         }
         // "break 'fail" goes here
+        #[cfg(fancy_regex_verif)]
+        verif::emit(|| verif::Event::Fail);
         if state.stack.is_empty() {
+            #[cfg(fancy_regex_verif)]
+            verif::emit(|| verif::Event::End(1));
             return Ok(None);
         }
 
         backtrack_count += 1;
         if backtrack_count > options.backtrack_limit {
+            #[cfg(fancy_regex_verif)]
+            verif::emit(|| verif::Event::End(2));
             return Err(Error::RuntimeError(RuntimeError::BacktrackLimitExceeded));
         }
+        #[cfg(fancy_regex_verif)]
+        verif::on_backtrack();
 
         let (newpc, newix) = state.pop();
         pc = newpc;
         ix = newix;
+        #[cfg(fancy_regex_verif)]
+        verif::emit(|| verif::Event::Pop { pc, ix });
+    }
+}
+
+/// Verification hooks (only with `--cfg fancy_regex_verif`): a thin public wrapper over the VM's
+/// private backtracking state, per-run statistics and an optional per-thread event sink.
+/// Nothing here changes the behaviour of the matcher.
+#[cfg(fancy_regex_verif)]
+pub mod verif {
+    use super::State;
+    use alloc::vec::Vec;
+    use std::cell::{Cell, RefCell};
+
+    /// Statistics of the most recent `run` on this thread.
+    #[derive(Clone, Copy, Debug, Default)]
+    pub struct RunStats {
+        /// Number of backtracks taken (pops of the branch stack caused by a failing thread).
+        pub backtracks: usize,
+        /// Highest number of entries on the branch stack.
+        pub peak_stack: usize,
+        /// Number of instructions executed.
+        pub insns: usize,
+    }
+
+    /// One observation of the VM, recorded at instruction boundaries.
+    #[derive(Clone, Debug)]
+    pub enum Event {
+        /// About to execute the instruction at `pc` with string index `ix`; `depth` is the number
+        /// of backtrack branches and `saves` the current slot vector.
+        Step {
+            /// program counter
+            pc: usize,
+            /// string index
+            ix: usize,
+            /// number of backtrack branches
+            depth: usize,
+            /// slot vector
+            saves: Vec<usize>,
+        },
+        /// The current thread failed.
+        Fail,
+        /// A backtrack branch was popped and execution resumes at (`pc`, `ix`).
+        Pop {
+            /// program counter
+            pc: usize,
+            /// string index
+            ix: usize,
+        },
+        /// The run ended: 0 = match, 1 = no match, 2 = backtrack limit, 3 = stack overflow.
+        End(u8),
+    }
+
+    thread_local! {
+        static STATS: Cell<RunStats> = Cell::new(RunStats { backtracks: 0, peak_stack: 0, insns: 0 });
+        static SINK: RefCell<Option<Vec<Event>>> = RefCell::new(None);
+    }
+
+    /// Statistics of the last run on this thread.
+    pub fn last_stats() -> RunStats {
+        STATS.with(|s| s.get())
+    }
+    pub(crate) fn reset_stats() {
+        STATS.with(|s| s.set(RunStats::default()))
+    }
+    pub(crate) fn on_insn(depth: usize) {
+        STATS.with(|s| {
+            let mut v = s.get();
+            v.insns += 1;
+            if depth > v.peak_stack {
+                v.peak_stack = depth;
+            }
+            s.set(v)
+        })
+    }
+    pub(crate) fn on_backtrack() {
+        STATS.with(|s| {
+            let mut v = s.get();
+            v.backtracks += 1;
+            s.set(v)
+        })
+    }
+    /// Start recording events on this thread (at most `cap` events are kept).
+    pub fn start_recording() {
+        SINK.with(|s| *s.borrow_mut() = Some(Vec::new()))
+    }
+    /// Stop recording and return the events.
+    pub fn take_events() -> Vec<Event> {
+        SINK.with(|s| s.borrow_mut().take().unwrap_or_default())
+    }
+    pub(crate) fn emit(f: impl FnOnce() -> Event) {
+        SINK.with(|s| {
+            if let Some(v) = s.borrow_mut().as_mut() {
+                if v.len() < 200_000 {
+                    v.push(f())
+                }
+            }
+        })
+    }
+
+    /// Public wrapper over the private backtracking state, so that operation sequences can be
+    /// driven from outside.
+    pub struct VerifState(State);
+
+    impl core::fmt::Debug for VerifState {
+        fn fmt(&self, f: &mut core::fmt::Formatter<'_>) -> core::fmt::Result {
+            write!(f, "VerifState {{ saves: {:?}, branches: {} }}", self.0.saves, self.0.stack.len())
+        }
+    }
+
+    impl VerifState {
+        /// New state with `n_saves` slots and the given maximum number of backtrack branches.
+        pub fn new(n_saves: usize, max_stack: usize) -> VerifState {
+            VerifState(State::new(n_saves, max_stack, 0))
+        }
+        /// Create an alternative (push a backtrack branch); false on stack overflow.
+        pub fn push(&mut self, pc: usize, ix: usize) -> bool {
+            self.0.push(pc, ix).is_ok()
+        }
+        /// Abandon the current alternative (pop a branch); None if there is none.
+        pub fn pop(&mut self) -> Option<(usize, usize)> {
+            if self.0.stack.is_empty() {
+                None
+            } else {
+                Some(self.0.pop())
+            }
+        }
+        /// Write a slot.
+        pub fn save(&mut self, slot: usize, val: usize) {
+            self.0.save(slot, val)
+        }
+        /// Read a slot.
+        pub fn get(&self, slot: usize) -> usize {
+            self.0.get(slot)
+        }
+        /// Push onto the auxiliary (explicit) stack.
+        pub fn stack_push(&mut self, val: usize) {
+            self.0.stack_push(val)
+        }
+        /// Pop from the auxiliary (explicit) stack.
+        pub fn stack_pop(&mut self) -> usize {
+            self.0.stack_pop()
+        }
+        /// Number of backtrack branches (what `BeginAtomic` remembers).
+        pub fn backtrack_count(&self) -> usize {
+            self.0.backtrack_count()
+        }
+        /// Commit: discard the branches pushed since the count was taken.
+        pub fn backtrack_cut(&mut self, count: usize) {
+            self.0.backtrack_cut(count)
+        }
+        /// The whole slot vector (regular slots, then the explicit stack area).
+        pub fn saves(&self) -> Vec<usize> {
+            self.0.saves.clone()
+        }
     }
 }
 
